@@ -68,15 +68,15 @@ def addr_bytes(a):
     return [int(x, 16) for x in a.split(":")]
 
 
-def cenv(res):
+def cenv(case, res):
     ll = [res["sides"][0]["ll_rand"], res["sides"][1]["ll_rand"]]
-    ed = [s["ediv"] if isinstance(s.get("ediv"), int) else 0 for s in res["sides"]]
-    # ediv as drawn by each side (0 when it never drew one)
+    ed = case.get("ediv") or [0x1234, 0x2345]      # EDIV drawn by each side (scripted)
+    bv = "[%s]" % "; ".join("(%s, %d, %d)" % (cbool(sd), pp, byte) for sd, pp, byte in case.get("bv", []))
     return ("{| e_addr_i := [%s]; e_atype_i := %d; e_addr_r := [%s]; e_atype_r := %d; e_skdm := %d; e_skds := %d; "
-            "e_ediv_i := %d; e_ediv_r := %d |}"
+            "e_ediv_i := %d; e_ediv_r := %d; e_bv := %s |}"
             % (";".join("%d" % b for b in addr_bytes(ADDR_I[0])), ADDR_I[1],
                ";".join("%d" % b for b in addr_bytes(ADDR_R[0])), ADDR_R[1],
-               ll[0].get("skd", 0), ll[1].get("skd", 0), ed[0], ed[1]))
+               ll[0].get("skd", 0), ll[1].get("skd", 0), ed[0], ed[1], bv))
 
 
 def cobs(s):
@@ -99,7 +99,7 @@ def ccase(case, res):
     preq = bytes.fromhex(res["preq"] or "")
     pres = bytes.fromhex(res["pres"] or "")
     return "(%s, %s, %s, %s, ([%s], [%s], %s), %s, %s)" % (
-        cparams(case["i"]), cparams(case["r"]), cscript(case["ui"]), cenv(res),
+        cparams(case["i"]), cparams(case["r"]), cscript(case["ui"]), cenv(case, res),
         ";".join("%d" % b for b in preq), ";".join("%d" % b for b in pres), cbool(not res["timeout"]),
         cobs(res["sides"][0]), cobs(res["sides"][1]))
 
